@@ -1,11 +1,18 @@
 /- Model/C10Gen.lean — the C10 model instantiated with the facts the translator extracted. -/
 import PsutilModel.Model.C10
+import PsutilModel.Model.C10Plat
 import PsutilModel.Generated.C10
 namespace Psutil.C10
 
 /-- does `disk_io_counters(perdisk=True)` keep its own nowrap history? -/
 def genFormsSeparate : Bool :=
   decide (Gen.C10.diskPerName ≠ Gen.C10.diskName) && decide (Gen.C10.diskPerName ≠ Gen.C10.netName)
+
+/-- both front ends, each on its own, take the raw sample and call `wrap_numbers` inside one `with <lock>:`, and
+    it is the same module-level lock for both (one sampling order over both functions) -/
+def genSampleUnderLock : Bool :=
+  Gen.C10.sampleUnderLockDisk && Gen.C10.sampleUnderLockNet
+    && decide (Gen.C10.samplingLocks.eraseDups.length = 1)
 
 /-- configuration of the model as extracted from the current source -/
 def cfg : Cfg :=
@@ -22,6 +29,49 @@ def cfg : Cfg :=
     lockedRun := Gen.C10.runUnderLock
     lockedClear := Gen.C10.clearUnderLock
     rkAccumulate := Gen.C10.rkAccumulates
-    sampleUnderLock := Gen.C10.sampleUnderLock }
+    sampleUnderLock := genSampleUnderLock }
+
+/-- the branch table of `_pslinux.disk_io_counters.read_procfs()` as extracted -/
+def layouts : List Layout := Gen.C10.diskstatsLayouts
+
+/-- **closed world**: everything in `psutil/*.py` that refers to `wrap_numbers`, to the instance `_wn`, to the front
+    ends' sampling lock or to one of the three cache names, as `file:function:kind`. The model's alphabet of
+    public operations (`FOp`: the two front ends, their `cache_clear`s, `wrap_numbers.cache_clear()`) is complete
+    only if nothing else reaches the cache. -/
+structure Users where
+  wrapNumbers : List String
+  wn : List String
+  nowrapLock : List String
+  names : List String
+  deriving DecidableEq
+
+def users : Users :=
+  ⟨Gen.C10.wrapNumbersRefs, Gen.C10.wnRefs, Gen.C10.nowrapLockRefs, Gen.C10.cacheNameRefs⟩
+
+/-- the users the model was written for -/
+def modelledUsers : Users where
+  wrapNumbers := ["__init__.py:<module>:cache_clear", "__init__.py:<module>:import",
+    "__init__.py:_disk_io_counters_cache_clear:cache_clear()", "__init__.py:_disk_io_counters_cache_clear:cache_clear()",
+    "__init__.py:disk_io_counters:call", "__init__.py:net_io_counters:call",
+    "_common.py:<module>:cache_clear=", "_common.py:<module>:cache_info=", "_common.py:<module>:def"]
+  wn := ["_common.py:<module>:=_WrapNumbers()", "_common.py:<module>:cache_clear", "_common.py:<module>:cache_info",
+    "_common.py:wrap_numbers:lock", "_common.py:wrap_numbers:run()"]
+  nowrapLock := ["__init__.py:<module>:=threading.Lock()", "__init__.py:disk_io_counters:with",
+    "__init__.py:net_io_counters:with"]
+  names := ["__init__.py:<module>:psutil.net_io_counters", "__init__.py:_disk_io_counters_cache_clear:psutil.disk_io_counters",
+    "__init__.py:_disk_io_counters_cache_clear:psutil.disk_io_counters.perdisk",
+    "__init__.py:disk_io_counters:psutil.disk_io_counters", "__init__.py:disk_io_counters:psutil.disk_io_counters.perdisk",
+    "__init__.py:net_io_counters:psutil.net_io_counters"]
+
+/-- normalised-AST digests (docstrings and comments removed) of the function bodies transcribed in
+    Model/C10.lean / Model/C10Dict.lean, as extracted -/
+def bodies : List (String × String) :=
+  [("_WrapNumbers.run", Gen.C10.astRun), ("_WrapNumbers._remove_dead_reminders", Gen.C10.astRemoveDead),
+   ("_WrapNumbers._add_dict", Gen.C10.astAddDict), ("_WrapNumbers.cache_clear", Gen.C10.astCacheClear)]
+
+/-- … and of the text the transcription was made from (psutil/_common.py at /repo 875e1d0) -/
+def transcribedBodies : List (String × String) :=
+  [("_WrapNumbers.run", "e813e1562f855cc6"), ("_WrapNumbers._remove_dead_reminders", "6b0ec5919bca19db"),
+   ("_WrapNumbers._add_dict", "22ab44049d33f0c5"), ("_WrapNumbers.cache_clear", "9cd948166ae3d38c")]
 
 end Psutil.C10
